@@ -269,7 +269,27 @@ func checkC04(p *load.Program, r *kit.Report) {
 			bad = "txid and proof are taken at different indexes"
 		default:
 			_ = ts
-			if e, ok := kit.Strip(ps).(*ssa.Extract); !ok || e.Index != 1 || callOf(e, 1) == nil || kit.CallID(callOf(e, 1)) != load.MerklePkg+".MerkleTree.FinalizeMerkleProofs" {
+			// the list is the tree's result; a phi of that result and nil constants (error paths of
+			// an expanded helper) is the same list wherever it is non-nil
+			src := kit.Strip(ps)
+			if ph, isPhi := src.(*ssa.Phi); isPhi {
+				var only ssa.Value
+				same := true
+				for _, inc := range ph.Edges {
+					inc = kit.Strip(inc)
+					if kit.IsNilConst(inc) {
+						continue
+					}
+					if only != nil && only != inc {
+						same = false
+					}
+					only = inc
+				}
+				if same && only != nil {
+					src = only
+				}
+			}
+			if e, ok := src.(*ssa.Extract); !ok || e.Index != 1 || callOf(e, 1) == nil || kit.CallID(callOf(e, 1)) != load.MerklePkg+".MerkleTree.FinalizeMerkleProofs" {
 				bad = "the proofs confirmed are not the ones FinalizeMerkleProofs returned"
 			}
 		}
@@ -327,7 +347,7 @@ func checkC04(p *load.Program, r *kit.Report) {
 		bad = ""
 		pre := kit.Reach(f, []kit.Pt{kit.Entry(f)}, kit.Opts{StopAt: kit.InstrSet(appendIDs)})
 		for _, ret := range kit.Returns(f) {
-			if pre.Has(ret) && kit.ReturnErrClass(ret) != kit.ErrNonNil {
+			if pre.Has(ret) && pre.ErrClass(ret) != kit.ErrNonNil {
 				bad = "handleBlock can report success (" + retLabel(ret) + " at " + posOf(p, ret) + ") without recording the block: " + pre.PathTo(ret, p.Pos)
 			}
 		}
